@@ -69,6 +69,7 @@ namespace irx {
     std::vector<Obj> snap_objs; std::vector<Frame> snap_stack; size_t snap_terms = 0; std::vector<Input> snap_inputs; std::vector<z3::expr> snap_pc; std::vector<HostStream> snap_hs; long snap_insts = 0;
     std::set<std::string> unknown_externals;
     long emitted = 0;
+    std::map<std::string, int> emitted_by_msg;
 
     Engine(Module & m) : M(m), DL(m.getDataLayout()) {}
 
@@ -176,11 +177,9 @@ namespace irx {
 
     bool decide(const z3::expr & c0, const void * site)
     {
-      z3::expr c = c0.simplify();
-      if (c.is_true()) return true;
-      if (c.is_false()) return false;
-      auto it = dcache.find(c.id());
-      if (it != dcache.end()) return it->second;
+      // NOTE: no caching / simplification shortcuts here: every symbolic branch evaluation consumes exactly one
+      // decision position, so that re-execution under a prefix is aligned whatever shape z3 gives the formulas
+      z3::expr c = c0;
       if (++site_hits[site] > opt.max_site_hits) { st.cut_bound++; throw PathEnd{"bound"}; }
       bool d;
       if (pos < prefix.size()) {
@@ -242,7 +241,7 @@ namespace irx {
     }
     void emit(const std::string & type, const std::string & what, const z3::model * m)
     {
-      if (emitted++ > 200) return;
+      if (++emitted_by_msg[type + what] > 12 || emitted++ > 600) return;
       std::ostringstream o;
       o << "{\"type\":\"" << type << "\",\"what\":\"" << jesc(what) << "\",\"where\":\"" << jesc(where()) << "\",\"decisions\":" << decisions_json();
       if (m) o << ",\"inputs\":" << model_json(*m);
@@ -254,7 +253,7 @@ namespace irx {
     {
       z3::model m(ctx);
       z3::check_result r = check(ctx.bool_val(true), &m);
-      if (r != z3::sat && getenv("IRX_DEBUG")) { std::cerr << "PC not sat (" << r << ") at event " << what << "\n"; for (auto & a : pc) std::cerr << "  " << a << "\n"; }
+      if (r != z3::sat && getenv("IRX_DEBUG")) { std::cerr << "PC not sat (" << r << ") at event " << what << "\n"; for (auto & a : pc) std::cerr << "  " << a << "\n"; z3::solver ds(ctx); for (auto & a : pc) ds.add(a); FILE * f = fopen("/tmp/irx_pc.smt2", "w"); if (f) { fputs(ds.to_smt2().c_str(), f); fclose(f); } }
       if (r == z3::unsat) throw Fatal{"engine inconsistency: event '" + what + "' on a path whose condition is unsatisfiable"};
       emit(type, what, r == z3::sat ? &m : nullptr);
     }
